@@ -17,7 +17,7 @@ type Field struct {
 }
 
 func F(tag int, val string) Field { return Field{strconv.Itoa(tag), val} }
-func FI(tag, val int) Field      { return Field{strconv.Itoa(tag), strconv.Itoa(val)} }
+func FI(tag, val int) Field       { return Field{strconv.Itoa(tag), strconv.Itoa(val)} }
 
 // WireOpts lets a scripted peer damage the framing on purpose.
 type WireOpts struct {
